@@ -751,6 +751,11 @@ for name, fname, qual in (('pat_vq_forward', VQ, 'VectorQuantize.forward'), ('pa
     ITEMS.append((name, (lambda name=name, fname=fname, qual=qual: G.emit_patterns(name, fname, qual))))
 
 
+# einops patterns with roles, interpreted inside Coq by Model/Einops.v (G3b)
+ITEMS.append(('pr_vq', lambda: G.emit_pattern_roles('pr_vq', [(VQ, 'VectorQuantize.forward'), (VQ, 'VectorQuantize.maybe_split_heads_from_input'),
+                                                              (VQ, 'VectorQuantize.get_codes_from_indices'), (VQ, 'VectorQuantize.forward.calculate_ce_loss')])))
+ITEMS.append(('pr_scalar', lambda: G.emit_pattern_roles('pr_scalar', [(FSQF, 'FSQ.forward'), (FSQF, 'FSQ.indices_to_codes'), (LFQF, 'LFQ.forward'), (LFQF, 'LFQ.indices_to_codes')])))
+
 ITEMS = [(n, f) for n, f in ITEMS if f is not None]
 
 
